@@ -27,7 +27,8 @@ ASSUMPTIONS = [
 ]
 USE_VM = False
 
-STATS = {'ties_skipped': 0, 'pre_false': 0, 'f19_cases': 0, 'rt_cases': 0}
+STATS = {'ties_skipped': 0, 'pre_false': 0, 'f19_cases': 0, 'rt_cases': 0, 'drop_given': 0, 'drop_cuts_events': 0,
+         'routes': {}, 'names_given': 0, 'readpm_rejections': 0}
 
 
 def extra_evidence():
@@ -78,7 +79,36 @@ def to_proto(d):
         x.instrument, x.program, x.is_drum = ins, prog, bool(dr)
     if d['notes']:
         ns.total_time = max(n[3] for n in d['notes']) / f
+    for ins, name in d.get('names') or []:
+        ii = ns.instrument_infos.add(); ii.instrument = ins; ii.name = name
+    fl = d.get('flags') or []
+    if 'qinfo_empty' in fl:
+        ns.quantization_info.SetInParent()
+    if 'sub' in fl:
+        ns.subsequence_info.start_time_offset = 1.5
+        ns.subsequence_info.end_time_offset = 0.25
+    if 'meta' in fl:
+        ns.id = 'id-7'; ns.filename = 'x.mid'; ns.source_info.parser = 3
     return ns
+
+
+def last_end(d):
+    return max([n[3] for n in d['notes']] or [0])
+
+
+def eff_desc(d):
+    """The sequence that has to come back, from the REQUESTED drop_events_n_seconds_after_last_note (documented meaning:
+    events -- tempo / time signature / key / control change / pitch bend -- later than that many seconds after the end
+    of the last note are dropped; None drops nothing; notes are never dropped)."""
+    drop = d.get('drop')
+    if drop is None:
+        return d
+    cut = last_end(d) + drop
+    e = dict(d)
+    for fld in ('tempos', 'tsigs', 'ksigs', 'ccs', 'bends'):
+        e[fld] = [r for r in d[fld] if not r[0] > cut]
+    e['drop'] = None
+    return e
 
 
 class NonInt(Exception):
@@ -115,11 +145,53 @@ def wr_table(d):
     return [[us, written_us(us, res)] for us in vals]
 
 
-def roundtrip(ns):
+_TMP = []
+
+
+def _tmp_path():
+    import atexit, os, shutil, tempfile
+    if not _TMP:
+        _TMP.append(tempfile.mkdtemp(prefix='verif-c03-'))
+        _TMP.append(0)
+        atexit.register(shutil.rmtree, _TMP[0], True)
+    _TMP[1] += 1
+    return os.path.join(_TMP[0], 'c%d.mid' % _TMP[1])
+
+
+ROUTES = ('bytes', 'pmobj', 'file', 'alias_file', 'alias_bytes')
+
+
+def roundtrip(ns, drop_s=None, route='bytes'):
+    """every public way from a NoteSequence to MIDI and back"""
+    import os
+    import pretty_midi
     from note_seq import midi_io
-    pm = midi_io.note_sequence_to_pretty_midi(ns)
+    if route in ('file', 'alias_file'):
+        path = _tmp_path()
+        try:
+            if route == 'file':
+                if drop_s is None:
+                    midi_io.note_sequence_to_midi_file(ns, path)
+                else:
+                    midi_io.note_sequence_to_midi_file(ns, path, drop_s)
+                return midi_io.midi_file_to_note_sequence(path)
+            midi_io.sequence_proto_to_midi_file(ns, path, drop_events_n_seconds_after_last_note=drop_s)
+            return midi_io.midi_file_to_sequence_proto(path)
+        finally:
+            if os.path.exists(path):
+                os.remove(path)
+    if route == 'alias_bytes':
+        pm = midi_io.sequence_proto_to_pretty_midi(ns, drop_s)
+    elif drop_s is None:
+        pm = midi_io.note_sequence_to_pretty_midi(ns)
+    else:
+        pm = midi_io.note_sequence_to_pretty_midi(ns, drop_events_n_seconds_after_last_note=drop_s)
     buf = io.BytesIO()
     pm.write(buf)
+    if route == 'pmobj':
+        return midi_io.midi_to_note_sequence(pretty_midi.PrettyMIDI(io.BytesIO(buf.getvalue())))
+    if route == 'alias_bytes':
+        return midi_io.midi_to_sequence_proto(buf.getvalue())
     return midi_io.midi_to_note_sequence(buf.getvalue())
 
 
@@ -145,8 +217,31 @@ def canon_seq(out, f):
     tempos = [[U(t.time, f), qpm_to_us(t.qpm)] for t in out.tempos]
     tsigs = [[U(t.time, f), t.numerator, t.denominator] for t in out.time_signatures]
     ksigs = [[U(k.time, f), k.key, k.mode] for k in out.key_signatures]
-    notes, ccs, bends = _rank([notes, ccs, bends])
-    return [notes, ccs, bends, tempos, tsigs, ksigs, U(out.total_time, f), out.ticks_per_quarter]
+    names = [[ii.instrument, ii.name] for ii in out.instrument_infos]
+    ids = set(r[0] for r in notes + ccs + bends)
+    stray = [r for r in names if r[0] not in ids]
+    notes, ccs, bends, names = _rank([notes, ccs, bends, [r for r in names if r[0] in ids]])
+    return [notes, ccs, bends, tempos, tsigs, ksigs, U(out.total_time, f), out.ticks_per_quarter,
+            {'names': names, 'stray_names': stray, 'parser': out.source_info.parser,
+             'encoding': out.source_info.encoding_type}]
+
+
+def canon_pm(pm, f):
+    scales = [[int(k), int(round(sc * f))] for k, sc in pm._tick_scales]
+    for (k, sc), (_, us) in zip(pm._tick_scales, scales):
+        if abs(sc * f - us) > 1e-3:
+            raise NonInt('tick scale %r' % sc)
+    instrs = [[i.program, int(i.is_drum),
+               [[n.velocity, n.pitch, U(n.start, f), U(n.end, f)] for n in i.notes],
+               [[b.pitch, U(b.time, f)] for b in i.pitch_bends],
+               [[c.number, c.value, U(c.time, f)] for c in i.control_changes]] for i in pm.instruments]
+    return [pm.resolution, scales,
+            [[t.numerator, t.denominator, U(t.time, f)] for t in pm.time_signature_changes],
+            [[k.key_number, U(k.time, f)] for k in pm.key_signature_changes], _drop_empty(instrs)]
+
+
+def drop_seconds(d):
+    return None if d.get('drop') is None else d['drop'] / (1e6 * res_of(d))
 
 
 # ---------------------------------------------------------------- implementation
@@ -154,23 +249,36 @@ def impl(case):
     d = case['input']
     f = 1e6 * res_of(d)
     ns = to_proto(d)
+    before = ns.SerializeToString(deterministic=True)
     from note_seq import midi_io
     try:
         if case['op'] == 'write':
-            pm = midi_io.note_sequence_to_pretty_midi(ns)
-            scales = [[int(k), int(round(sc * f))] for k, sc in pm._tick_scales]
-            for (k, sc), (_, us) in zip(pm._tick_scales, scales):
-                if abs(sc * f - us) > 1e-3:
-                    raise NonInt('tick scale %r' % sc)
-            instrs = [[i.program, int(i.is_drum),
-                       [[n.velocity, n.pitch, U(n.start, f), U(n.end, f)] for n in i.notes],
-                       [[b.pitch, U(b.time, f)] for b in i.pitch_bends],
-                       [[c.number, c.value, U(c.time, f)] for c in i.control_changes]] for i in pm.instruments]
-            return ['OK', pm.resolution, scales,
-                    [[t.numerator, t.denominator, U(t.time, f)] for t in pm.time_signature_changes],
-                    [[k.key_number, U(k.time, f)] for k in pm.key_signature_changes], _drop_empty(instrs)]
-        out = roundtrip(ns)
-        return ['OK'] + canon_seq(out, f)
+            ds = drop_seconds(d)
+            pm = midi_io.note_sequence_to_pretty_midi(ns) if ds is None else midi_io.note_sequence_to_pretty_midi(ns, ds)
+            r = ['OK'] + canon_pm(pm, f)
+        elif case['op'] == 'readpm':
+            pm = midi_io.note_sequence_to_pretty_midi(ns, drop_seconds(d))
+            bad = d.get('bad')
+            if bad and bad[0] == 'key':
+                pm.key_signature_changes[bad[1]].key_number = bad[2]
+            if bad and bad[0] == 'den':
+                pm.time_signature_changes[bad[1]].denominator = bad[2]
+            pm_before = canon_pm(pm, f)
+            try:
+                out = midi_io.midi_to_note_sequence(pm)
+                r = ['OK'] + canon_seq(out, f)
+            except NonInt:
+                raise
+            except Exception as e:  # noqa
+                r = ['EXC', type(e).__name__]
+            if canon_pm(pm, f) != pm_before:
+                r = ['ARG-MODIFIED', 'PrettyMIDI object changed by midi_to_note_sequence']
+        else:
+            out = roundtrip(ns, drop_seconds(d), d.get('route') or 'bytes')
+            r = ['OK'] + canon_seq(out, f)
+        if ns.SerializeToString(deterministic=True) != before:
+            return ['ARG-MODIFIED', 'NoteSequence changed by the conversion']
+        return r
     except NonInt as e:
         return ['NONINT', str(e)[:120]]
     except Exception as e:  # noqa
@@ -187,7 +295,12 @@ def wire(d):
 
 
 def model_input(case):
-    d = case['input']
+    d = eff_desc(case['input'])            # the harness applies the REQUESTED drop parameter by its documented meaning
+    if case['op'] == 'readpm':
+        bad = case['input'].get('bad')
+        if bad and bad[0] != 'key':
+            return None                    # oversized denominators: oracle only (protobuf int32 range is not modelled)
+        return [4, wire(d), wr_table(d), [bad[1], bad[2]] if bad else []]
     return [1 if case['op'] == 'write' else 2, wire(d), wr_table(d)]
 
 
@@ -203,6 +316,8 @@ def model_output(case, m):
 
 
 def equal(case, a, b):
+    if a and a[0] == 'OK' and isinstance(a[-1], dict):
+        a = a[:-1]                              # names / source_info: oracle only, not modelled
     if case['op'] == 'write':
         if b[-1]['ties']:
             STATS['ties_skipped'] += 1
@@ -304,15 +419,55 @@ def _match_lists(xs, ys, tol):
     return True
 
 
+def _oracle_readpm(case, io_):
+    """reader glue alone on a PrettyMIDI object (the other documented argument type of midi_to_note_sequence) and its
+    documented rejections: a key number outside major/minor and a time signature denominator beyond int32 are
+    MIDIConversionError -- also when the offending element comes after valid ones -- and the object is left alone"""
+    d_req = case['input']
+    d = eff_desc(d_req)
+    bad = d_req.get('bad')
+    if bad:
+        invalid = (bad[2] // 12) not in (0, 1) if bad[0] == 'key' else not (-2 ** 31 <= bad[2] < 2 ** 31)
+        STATS['readpm_rejections'] += int(invalid)
+        if invalid and io_ != ['EXC', 'MIDIConversionError']:
+            return {'kind': 'invalid-midi-object-not-rejected-with-MIDIConversionError', 'got': io_[:2], 'bad': bad}
+        if not invalid and io_[0] != 'OK':
+            return {'kind': 'valid-midi-object-rejected', 'got': io_[:2], 'bad': bad}
+        return None
+    if not representable(d):
+        return None
+    if io_[0] != 'OK':
+        return {'kind': 'reader-raises', 'what': io_[:2]}
+    want = sorted([prog, dr, p, v, s, e] for p, v, s, e, ins, prog, dr in d['notes'])
+    got = sorted(r[1:] for r in io_[1])
+    if want != got:
+        return {'kind': 'reader-changes-notes', 'in': len(want), 'out': len(got)}
+    if io_[8] != res_of(d):
+        return {'kind': 'resolution-changed', 'in': res_of(d), 'out': io_[8]}
+    return None
+
+
 def oracle(case, io_):
+    if io_ and io_[0] == 'ARG-MODIFIED':
+        return {'kind': 'argument-modified', 'what': io_[1], 'op': case['op']}
+    if case['op'] == 'readpm':
+        return _oracle_readpm(case, io_)
     if case['op'] != 'rt':
         return None
-    d = case['input']
+    d_req = case['input']
+    d = eff_desc(d_req)            # what has to come back, from the requested drop_events_n_seconds_after_last_note
     if not representable(d):
         return None
     if io_[0] != 'OK':
         return {'kind': 'roundtrip-raises', 'what': io_[:2]}
     notes, ccs, bends, tempos, tsigs, ksigs, total, tpq = io_[1:9]
+    extra = io_[9]
+    if d_req.get('drop') is not None:
+        STATS['drop_given'] += 1
+        STATS['drop_cuts_events'] += int(any(d[k] != d_req[k] for k in ('tempos', 'tsigs', 'ksigs', 'ccs', 'bends')))
+    rt_ = d_req.get('route') or 'bytes'
+    STATS['routes'][rt_] = STATS['routes'].get(rt_, 0) + 1
+    STATS['names_given'] += int(bool(d_req.get('names')))
     res = res_of(d)
     if tpq != res:
         return {'kind': 'resolution-changed', 'in': res, 'out': tpq}
@@ -466,16 +621,62 @@ def oracle(case, io_):
             b = _in_effect(kout, p)
             if a != b:
                 return {'kind': 'key-in-effect-changed', 'at_units': p, 'in': a and list(a), 'out': b and list(b)}
+    # --- a name given for an instrument number comes back on every output instrument carrying its notes
+    given = {}
+    for ins, name in d_req.get('names') or []:
+        given[ins] = name
+    for k in keys_in:
+        nm = given.get(k[0])
+        if nm and [amap[k], nm] not in extra['names']:
+            return {'kind': 'instrument-name-lost', 'instrument': k[0], 'name': nm,
+                    'got': [r[1] for r in extra['names'] if r[0] == amap[k]]}
+    from note_seq.protobuf import music_pb2
+    if (extra['parser'], extra['encoding']) != (music_pb2.NoteSequence.SourceInfo.PRETTY_MIDI,
+                                                music_pb2.NoteSequence.SourceInfo.MIDI):
+        return {'kind': 'source-info-wrong', 'got': [extra['parser'], extra['encoding']]}
     # --- storage order of notes and tempos does not matter
     if distinct_tempo_times:
-        d2 = dict(d)
-        d2['notes'] = list(reversed(d['notes']))
-        d2['tempos'] = list(reversed(d['tempos']))
-        if d2['notes'] != d['notes'] or d2['tempos'] != d['tempos']:
+        d2 = dict(d_req)
+        d2['notes'] = list(reversed(d_req['notes']))
+        d2['tempos'] = list(reversed(d_req['tempos']))
+        if d2['notes'] != d_req['notes'] or d2['tempos'] != d_req['tempos']:
             io2 = impl({'op': 'rt', 'input': d2})
             if io2 != io_:
                 return {'kind': 'depends-on-storage-order',
                         'tempos_time_sorted': tin == sorted(tin, key=lambda r: r[0])}
+    # --- state across calls / aliasing: a second identical call gives the same answer; the returned PrettyMIDI shares
+    #     nothing with the argument or with a later result; the output fed back in is a fixed point
+    from note_seq import midi_io
+    f = 1e6 * res
+    ns = to_proto(d_req)
+    snap0 = ns.SerializeToString(deterministic=True)
+    try:
+        out1 = roundtrip(ns, drop_seconds(d_req), d_req.get('route') or 'bytes')
+        if ['OK'] + canon_seq(out1, f) != io_:
+            return {'kind': 'second-call-differs'}
+        pm1 = midi_io.note_sequence_to_pretty_midi(ns, drop_seconds(d_req))
+        c1 = canon_pm(pm1, f)
+        for ins_ in pm1.instruments:
+            for n_ in ins_.notes:
+                n_.pitch = (n_.pitch + 1) % 128
+            del ins_.notes[:], ins_.pitch_bends[:], ins_.control_changes[:]
+            ins_.program = 99
+        del pm1.time_signature_changes[:], pm1.key_signature_changes[:]
+        pm1._tick_scales.append((10 ** 6, 1.0))
+        if ns.SerializeToString(deterministic=True) != snap0:
+            return {'kind': 'argument-aliased-by-result', 'what': 'editing the PrettyMIDI changed the NoteSequence'}
+        if canon_pm(midi_io.note_sequence_to_pretty_midi(ns, drop_seconds(d_req)), f) != c1:
+            return {'kind': 'result-aliased-across-calls', 'what': 'editing an earlier PrettyMIDI changed a later one'}
+        def exact_again(q):        # F19 on the second pass depends on the binary64 value of the qpm read back
+            return int(6e7 / (60. / ((60.0 / (res * q)) * res))) == qpm_to_us(q)
+        if not f19 and all(exact_again(t_.qpm) for t_ in out1.tempos):
+            out2 = roundtrip(out1)
+            a1, a2 = canon_seq(out1, f)[:8], canon_seq(out2, f)[:8]   # default track names depend on the instrument number
+            if a1 != a2:
+                diff = [i for i in range(len(a1)) if a1[i] != a2[i]]
+                return {'kind': 'second-round-trip-not-a-fixed-point', 'fields': diff}
+    except NonInt as e:
+        return {'kind': 'non-integer-time', 'what': str(e)[:100]}
     if one_us:
         STATS['f19_cases'] += 1
     return one_us
@@ -492,10 +693,72 @@ def nontrivial(case, io_):
 
 
 # ---------------------------------------------------------------- generator
-def _desc(tpq=220, notes=(), tempos=(), tsigs=(), ksigs=(), ccs=(), bends=()):
+def _desc(tpq=220, notes=(), tempos=(), tsigs=(), ksigs=(), ccs=(), bends=(), drop=None, route='bytes', names=(),
+          flags=()):
     return {'tpq': tpq, 'notes': [list(x) for x in notes], 'tempos': [list(x) for x in tempos],
             'tsigs': [list(x) for x in tsigs], 'ksigs': [list(x) for x in ksigs], 'ccs': [list(x) for x in ccs],
-            'bends': [list(x) for x in bends]}
+            'bends': [list(x) for x in bends], 'drop': drop, 'route': route, 'names': [list(x) for x in names],
+            'flags': list(flags)}
+
+
+NAMES = ['Lead', 'Bass gtr', 'Drums', 'x', 'Caf\xe9 piano', 'Acoustic Grand Piano', 'track 1']
+
+
+def decorate(rng, d):
+    """Parameters and rare shapes drawn INDEPENDENTLY of the musical content: drop_events_n_seconds_after_last_note
+    (None / 0 / boundary +-1 unit around an event / random), the conversion route (every public entry point and alias,
+    file and bytes, PrettyMIDI object), instrument_infos names (also for instruments without notes), empty / unrelated
+    sub-messages, values at range ends, events at time 0."""
+    d = dict(d)
+    res = res_of(d)
+    sec = 1000000 * res
+    # rare shapes first (they may add events the drop parameter then cuts)
+    if rng.random() < 0.25 and d['notes']:
+        k = rng.choice(d['notes'])[4:7]
+        d['bends'] = d['bends'] + [[rng.choice([0, rng.randint(0, 10 * sec)]), rng.choice([-8192, 8191, 0]), k[0], k[1], k[2]]]
+        d['ccs'] = d['ccs'] + [[rng.choice([0, rng.randint(0, 10 * sec)]), rng.choice([0, 127]), rng.choice([0, 127]),
+                               k[0], k[1], k[2]]]
+    if rng.random() < 0.15:
+        times = set(r[0] for r in d['tsigs'])
+        t = rng.choice([0, rng.randint(1, 20 * sec)])
+        if all(abs(t - x) >= 4000000 for x in times):
+            d['tsigs'] = d['tsigs'] + [[t, rng.choice([1, 255, 5]), rng.choice([1, 32, 64, 128])]]
+    if rng.random() < 0.1 and d['notes']:
+        n0 = list(d['notes'][0])
+        same = [n for n in d['notes'] if n[0] == n0[0] and n[4:7] == n0[4:7]]
+        if len(same) == 1:                       # a note starting exactly at time 0, pitch / velocity at a range end
+            ln = n0[3] - n0[2]
+            d['notes'] = [[n0[0], rng.choice([1, 127]), 0, ln] + n0[4:7]] + d['notes'][1:]
+    # drop_events_n_seconds_after_last_note
+    r = rng.random()
+    L = last_end(d)
+    ev = sorted(set(x[0] for fld in ('tempos', 'tsigs', 'ksigs', 'ccs', 'bends') for x in d[fld] if x[0] > L))
+    drop = None
+    if r < 0.45:
+        if ev and rng.random() < 0.6:
+            drop = rng.choice(ev) - L + rng.choice([-1, 1])          # just before / just after an event
+        else:
+            drop = rng.choice([0, 1, sec // 3, rng.randint(0, 12 * sec)])
+        if drop < 0 or (drop == 0 and L == 0):
+            drop = None                                              # "after the last note" is undefined without notes
+        while drop is not None and (L + drop) in ev:
+            drop += 1                                                # equality is decided by binary64 rounding
+    d['drop'] = drop
+    d['route'] = rng.choice(ROUTES) if rng.random() < 0.5 else 'bytes'
+    names = []
+    ids = sorted(set(n[4] for n in d['notes']) | set(c[3] for c in d['ccs']))
+    for i in ids:
+        if rng.random() < 0.3:
+            names.append([i, rng.choice(NAMES)])
+    if rng.random() < 0.1:
+        names.append([max(ids + [0]) + 3, 'nobody'])
+    if rng.random() < 0.05 and ids:
+        names.append([ids[0], ''])
+        names = [r for r in names if r[0] != ids[0]] + [[ids[0], '']]
+    rng.shuffle(names)
+    d['names'] = names
+    d['flags'] = [fl for fl in ('qinfo_empty', 'sub', 'meta') if rng.random() < 0.15]
+    return d
 
 
 def gen_desc(rng, big=False):
@@ -596,12 +859,41 @@ def corpus():
         # five tempo changes each 10.45 ticks (of the tempo in force) after the previous one, tpq 24
         _desc(tpq=24, tempos=[(0, 500000), (5225000, 600000), (11495000, 500000), (16720000, 600000), (22990000, 500000),
                               (28215000, 600000)], notes=[n(60, 0, 6000000), n(61, 31200000, 37200000)]),
+        # drop parameter: events after last note end + drop are cut (here: 1 s); before it kept; every route
+        _desc(notes=[n(60, 0, sec)], tempos=[(0, 600000), (3 * sec, 400000)], tsigs=[(0, 3, 4), (2 * sec - 1, 5, 8), (2 * sec + 1, 7, 8)],
+              ksigs=[(sec, 2, 1), (5 * sec, 3, 0)], ccs=[(2 * sec - 5, 64, 127, 0, 0, 0), (2 * sec + 5, 64, 0, 0, 0, 0)],
+              bends=[(9 * sec, 5, 0, 0, 0)], drop=sec, route='file', names=[(0, 'Lead')]),
+        _desc(notes=[n(60, 0, sec, ins=3), n(36, 0, sec, ins=3, dr=1)], tempos=[(2 * sec, 400000)], drop=0,
+              route='alias_file', names=[(3, 'Caf\xe9 piano'), (9, 'nobody')], flags=['qinfo_empty', 'sub', 'meta']),
+        _desc(notes=[n(0, 0, sec, v=1), n(127, 0, sec, v=127, prog=127)], tsigs=[(0, 255, 128)], drop=5 * sec,
+              route='alias_bytes', bends=[(0, -8192, 0, 0, 0), (1, 8191, 0, 127, 0)], ccs=[(0, 0, 0, 0, 0, 0), (0, 127, 127, 0, 0, 0)]),
+        _desc(notes=[n(60, sec, 2 * sec, ins=1)], route='pmobj', names=[(1, 'x')]),
+        # 18 groups (more tracks than MIDI channels), a negative instrument number
+        _desc(notes=[n(40 + j, sec, 2 * sec, ins=j, prog=j) for j in range(18)]),
+        _desc(notes=[n(60, sec, 2 * sec, ins=-1, prog=4), n(61, sec, 2 * sec, ins=0, prog=5)]),
         # same tempo twice in a row (the loader merges them)
         _desc(tempos=[(0, 600000), (sec, 600000), (2 * sec, 500000)], notes=[n(64, sec, 3 * sec, ins=1, dr=1)]),
     ]
     for d in ds:
         out.append({'op': 'write', 'input': d})
         out.append({'op': 'rt', 'input': d})
+    out += readpm_cases(ds[6])
+    out += readpm_cases([d for d in ds if d['drop'] == sec][0])
+    return out
+
+
+def readpm_cases(d):
+    """reader glue on the PrettyMIDI object + rejection paths (offending element last, after valid ones)"""
+    d = dict(d, route='bytes')
+    out = [{'op': 'readpm', 'input': d}]
+    nk = len(eff_desc(d)['ksigs'])
+    if nk:
+        for key in (24, 35, -1, 23, 12):
+            out.append({'op': 'readpm', 'input': dict(d, bad=['key', nk - 1, key])})
+    nt = len(eff_desc(d)['tsigs'])
+    if nt:
+        for den in (2 ** 31, 2 ** 31 - 1):
+            out.append({'op': 'readpm', 'input': dict(d, bad=['den', nt - 1, den])})
     return out
 
 
@@ -668,10 +960,15 @@ def cases(rng, tier, n=None):
     crng = __import__('random').Random(rng.randint(0, 2 ** 30))
     for i in range(k // 6):
         ds.append(gen_tempo_chain(crng))
+    prng = __import__('random').Random(rng.randint(0, 2 ** 30))
+    ds = [decorate(prng, d) if i % 4 else d for i, d in enumerate(ds)]
     out = []
-    for d in ds:
+    for i, d in enumerate(ds):
         out.append({'op': 'write', 'input': d})
         out.append({'op': 'rt', 'input': d})
+        if i % 5 == 2:
+            rp = readpm_cases(d)
+            out += rp if i % 15 == 2 else rp[:1]
     return out
 
 
@@ -682,7 +979,18 @@ def shrink(case):
         for i in range(len(xs)):
             c = dict(d)
             c[f] = xs[:i] + xs[i + 1:]
+            if c.get('bad'):
+                continue
             yield {'op': case['op'], 'input': c}
+    if not d.get('bad'):
+        if d.get('route', 'bytes') != 'bytes':
+            yield {'op': case['op'], 'input': dict(d, route='bytes')}
+        if d.get('names'):
+            yield {'op': case['op'], 'input': dict(d, names=[])}
+        if d.get('flags'):
+            yield {'op': case['op'], 'input': dict(d, flags=[])}
+        if d.get('drop') is not None:
+            yield {'op': case['op'], 'input': dict(d, drop=None)}
 
 
 META = {
